@@ -273,8 +273,11 @@ class ComponentLevel3( ComponentLevel2 ):
     def connect_by_name( this, other ):
       # The statement is symmetric: a connectable field that only the other
       # side has is an error as well
+      def has_hw( x ): # a port / interface, or a list that holds some
+        return isinstance( x, Connectable ) or ( isinstance( x, list ) and any( has_hw(y) for y in x ) )
+
       for name in sorted(other.__dict__):
-        if name[0] != '_' and isinstance( other.__dict__[ name ], Connectable ) and not hasattr( this, name ):
+        if name[0] != '_' and has_hw( other.__dict__[ name ] ) and not hasattr( this, name ):
           raise InvalidConnectionError("There is no \"{}\" field in {} "
           "to connect to {} during by-name connection\n"
           "Suggestion: check the implementation of \n"
@@ -283,11 +286,17 @@ class ComponentLevel3( ComponentLevel2 ):
             repr(other), type(other), repr(this), type(this) ) )
 
       def recursive_connect( this_obj, other_obj ):
-        if isinstance( this_obj, list ):
+        if ( isinstance( this_obj, list ) or isinstance( other_obj, list ) ) and \
+           ( has_hw( this_obj ) or has_hw( other_obj ) ):
+          # both sides have to be lists of the same length, whichever side
+          # the statement names first
+          if not ( isinstance( this_obj, list ) and isinstance( other_obj, list ) and \
+                   len(this_obj) == len(other_obj) ):
+            raise InvalidConnectionError("Cannot connect {} and {} by name: both have to be lists "
+                                         "of the same length".format( this_obj, other_obj ) )
           for i in range(len(this_obj)):
-            # TODO add error message if other_obj is not a list
             recursive_connect( this_obj[i], other_obj[i] )
-        else:
+        elif not isinstance( this_obj, list ):
           s._connect( other_obj, this_obj, internal=True )
 
       # Sort the keys to always connect in a unique order
@@ -301,7 +310,7 @@ class ComponentLevel3( ComponentLevel2 ):
           else:
             # other doesn't have the corresponding field, raise error
             # if obj is connectable.
-            if isinstance( obj, Connectable ):
+            if has_hw( obj ):
               raise InvalidConnectionError("There is no \"{}\" field in {} "
               "to connect to {} during by-name connection\n"
               "Suggestion: check the implementation of \n"
